@@ -44,6 +44,15 @@ REGRESSIONS = {
                        ["enter_for", "normal_exit_for", "_break", "enter_if", "exit_if", "equal"]),
     "try_finally_noexcept": ([("try", 1, [("expr", _call(2, 3, "boom", _c(4, 1)))], [], [], [("expr", _call(5, 6, "k", _c(7, 2)))])],
                              ["enter_try", "clean_exit_try", "pre_call", "post_call"]),
+    # break/continue written in the else clause of a loop belong to the ENCLOSING loop (fixed in /repo 2790d9c)
+    "continue_in_for_else": ([("for", 1, "t", ("list", 2, [_c(3, 1), _c(4, 2)]),
+                               [("for", 5, "u", ("list", 6, []), [("expr", _call(7, 8, "k", ("name", 9, "u")))],
+                                 [("if", 10, ("cmp", 11, ("name", 12, "t"), [("CEqual", _c(13, 1))]), [("continue", 14)], [])]),
+                                ("while", 15, ("cmp", 16, ("name", 17, "t"), [("CEqual", _c(18, 5))]), [("pass",)],
+                                 [("if", 19, ("cmp", 20, ("name", 21, "t"), [("CEqual", _c(22, 2))]), [("break", 23)], [])]),
+                                ("expr", _call(24, 25, "k", ("name", 26, "t")))],
+                               [("expr", _call(27, 28, "k", _c(29, 9)))])],
+                             ["_continue", "_break", "normal_exit_for", "normal_exit_while", "enter_if", "exit_if", "equal", "pre_call"]),
     "while_continue": ([("assign", 1, [("tname", "i1")], _c(2, 0)),
                         ("while", 3, ("cmp", 4, ("name", 5, "i1"), [("CLessThan", _c(6, 3))]),
                          [("assign", 7, [("tname", "i1")], ("bin", 8, "BAdd", ("name", 9, "i1"), _c(10, 1))),
